@@ -162,7 +162,9 @@ def gen_project(seed, nfiles=None, with_header=None, with_inline=None, severitie
         else:
             supp.append("%s:*.c" % sid)
             supprs.append({"id": sid, "file": "*.c", "line": -1, "inline": False, "glob": True})
-    for s in supp:
+    for i, s in enumerate(supp):
+        if s in supp[:i]:
+            continue        # cppcheck refuses a command line that names the same suppression twice
         opts.append("--suppress=" + s)
     xs = []
     if rnd.random() < 0.35:
